@@ -113,6 +113,8 @@ def check_heads(ctx):
         for st in f.node.body:
             if isinstance(st, ast.If) and all(isinstance(x, ast.Raise) for x in st.body) and not st.orelse:
                 continue
+            if isinstance(st, ast.Expr) and isinstance(st.value, ast.Call) and _is_check_helper(repo, f, st.value):
+                continue
             if isinstance(st, ast.Expr) and isinstance(st.value, ast.Constant):
                 continue
             first_work = st
@@ -124,11 +126,36 @@ def check_heads(ctx):
                   late[0] if late else f.node, sample='all AssertionError checks precede the first statement that does work')
 
 
+def _is_check_helper(repo, f, call):
+    """a call of a repository function that does nothing but test its arguments and raise"""
+    r = repo.resolve_call(f, call)
+    if r is None:
+        return False
+    callee = r[0]
+    for st in callee.node.body:
+        if isinstance(st, ast.Expr) and isinstance(st.value, ast.Constant):
+            continue
+        if isinstance(st, ast.If) and not st.orelse and all(isinstance(x, ast.Raise) for x in st.body):
+            continue
+        return False
+    return True
+
+
 def _compare_head(ctx, f, src):
     """like dt.compare_tables, restricted to assignments where the reference raises or the implementation raises
     AssertionError"""
     ref = dtmod.ref_func(src, f)
-    impl_rows = [r for r in dtmod._table(f, 'conds') if r[1] == 'raise' and r[2] == 'AssertionError']
+    delegating = any(isinstance(st, ast.Expr) and isinstance(st.value, ast.Call) and _is_check_helper(ctx.repo, f, st.value)
+                     for st in f.node.body)
+    impl_rows = [r for r in dtmod._table(f, 'paths' if delegating else 'conds') if r[1] == 'raise' and r[2] == 'AssertionError']
+    # only the function's own checks and those of its check helpers (what a converter it calls later rejects is
+    # that converter's head)
+    impl_rows = [r for r in impl_rows if isinstance(r[3], ast.Raise)
+                 or (isinstance(r[3], ast.Expr) and isinstance(r[3].value, ast.Call) and _is_check_helper(ctx.repo, f, r[3].value))]
+    uniq = {}
+    for r in impl_rows:
+        uniq.setdefault(repr(r[0]), r)
+    impl_rows = list(uniq.values())
     ref_rows = [r for r in dtmod._table(ref, 'conds') if r[1] == 'raise']
     from ..guards import f_or
     fi = f_or(*[r[0] for r in impl_rows]) if impl_rows else ('false',)
@@ -169,7 +196,8 @@ def check_return_kinds(ctx):
             ok = isinstance(v, ast.Constant) and v.value is True
             want = 'True'
         elif mode == 'return_col':
-            ok = isinstance(v, ast.Call) and call_name(v) == 'series_to_str' and v.args and U(v.args[0]).startswith(f.params[0] + '[')
+            ok = isinstance(v, ast.Call) and call_name(v) == 'series_to_str' and v.args \
+                and U(view.expand(v.args[0], r)).startswith(f.params[0] + '[')
             want = 'the converted column series_to_str(dataframe[col_name], ...)'
         else:
             ok = False
